@@ -1,8 +1,14 @@
 """(T) for C20: read `pyroll/core/config.py` with `ast` and describe, as DATA, the decisions the property depends on:
 
-* the order of the `if` branches of `ConfigValue.parse` (custom parser, bool, Path, str, Enum, Mapping, Iterable, else
-  `self.type(s)`), the normalisation chain and literals of the bool tests, the `try/except` chain of the enum branch,
-  the separators and `strip` calls of the mapping / iterable branches;
+* the `if` branches of `ConfigValue.parse` in source order: for each the DISPATCH CLASS `self.type` is tested against (bool,
+  Path, str, int, Enum, Mapping, Iterable; the custom parser), the KIND of test (`self.type is T` = identity,
+  `issubclass(self.type, T)` = subclass, `isinstance(self.default, T)` = instance) and what the branch returns (`s`, `T(s)`,
+  `self.type(s)`, or the standard body of the class); the normalisation chain and literals of the bool tests, the
+  `try/except` chain of the enum branch, the separators and `strip` calls of the mapping / iterable branches;
+* the assignments of `ConfigValue.__init__` and `__set_name__` (which attribute gets which parameter, `type(default)`, the
+  module-path fallback of the prefix);
+* the slot attribute (`"_" + self.name`) read by `__get__`, written by `__set__`, removed by `__delete__`;
+* what `ConfigMeta.to_dict` collects and whether `update` returns it;
 * the order of the sources in `ConfigValue.__get__` and that each is guarded by `is not None`;
 * the format of `ConfigValue.env_var`;
 * whether the unknown-name branch of `ConfigMeta.update` contains a `raise`;
@@ -74,21 +80,53 @@ def _exc_name(node):
     return None
 
 
+DISPATCH = {"bool": "bool", "Path": "path", "str": "str", "int": "int", "Enum": "enum", "Mapping": "mapping",
+            "Iterable": "iterable"}
+
+
+def _class_name(c):
+    return c.attr if isinstance(c, ast.Attribute) else c.id if isinstance(c, ast.Name) else None
+
+
 def _branch_of_test(test):
+    """-> (dispatch class, kind of test)"""
     if _is_self_attr(test, "parser"):
-        return "custom"
-    if isinstance(test, ast.Compare) and len(test.ops) == 1 and isinstance(test.ops[0], ast.Is) \
-            and _is_self_attr(test.left, "type") and isinstance(test.comparators[0], ast.Name):
-        n = test.comparators[0].id
-        if n in ("bool", "Path", "str"):
-            return n.lower()
-    if isinstance(test, ast.Call) and isinstance(test.func, ast.Name) and test.func.id == "issubclass" \
-            and len(test.args) == 2 and _is_self_attr(test.args[0], "type"):
-        c = test.args[1]
-        name = c.attr if isinstance(c, ast.Attribute) else c.id if isinstance(c, ast.Name) else None
-        if name in ("Enum", "Mapping", "Iterable"):
-            return name.lower()
+        return "custom", "truthy"
+    if isinstance(test, ast.Compare) and len(test.ops) == 1 and isinstance(test.ops[0], ast.IsNot) \
+            and _is_self_attr(test.left, "parser") and isinstance(test.comparators[0], ast.Constant) \
+            and test.comparators[0].value is None:
+        return "custom", "truthy"
+    if isinstance(test, ast.Compare) and len(test.ops) == 1 and isinstance(test.ops[0], (ast.Is, ast.Eq)) \
+            and _is_self_attr(test.left, "type"):
+        n = _class_name(test.comparators[0])
+        if n in DISPATCH:
+            return DISPATCH[n], "identity"
+    if isinstance(test, ast.Call) and isinstance(test.func, ast.Name) and len(test.args) == 2 and not test.keywords:
+        n = _class_name(test.args[1])
+        if test.func.id == "issubclass" and _is_self_attr(test.args[0], "type") and n in DISPATCH:
+            return DISPATCH[n], "subclass"
+        if test.func.id == "isinstance" and _is_self_attr(test.args[0], "default") and n in DISPATCH:
+            return DISPATCH[n], "instance"
     raise Gap(f"parse: unknown branch test `{_src(test)}`")
+
+
+CTOR_NAME = {"path": "Path", "str": "str", "int": "int"}
+
+
+def _plain_body(body, cls):
+    """the body of a path / str / int branch: `return s` | `return T(s)` | `return self.type(s)`"""
+    r = _single_return(body, cls + " branch")
+    if isinstance(r, ast.Name) and r.id == "s":
+        if cls != "str":
+            raise Gap(f"{cls} branch: returns the text itself")
+        return "text"
+    if isinstance(r, ast.Call) and len(r.args) == 1 and not r.keywords and isinstance(r.args[0], ast.Name) \
+            and r.args[0].id == "s":
+        if isinstance(r.func, ast.Name) and r.func.id == CTOR_NAME[cls]:
+            return "named"
+        if _is_self_attr(r.func, "type"):
+            return "selfType"
+    raise Gap(f"{cls} branch: `{_src(r)}`")
 
 
 def _single_return(body, what):
@@ -223,9 +261,11 @@ def _strip_doc(body):
 
 
 def _slot_expr(node):
-    """`"_" + self.name`"""
-    return isinstance(node, ast.BinOp) and isinstance(node.op, ast.Add) and isinstance(node.left, ast.Constant) \
-        and node.left.value == "_" and _is_self_attr(node.right, "name")
+    """`"<prefix>" + self.name` -> prefix (a non-empty text) | None"""
+    if isinstance(node, ast.BinOp) and isinstance(node.op, ast.Add) and isinstance(node.left, ast.Constant) \
+            and isinstance(node.left.value, str) and node.left.value and _is_self_attr(node.right, "name"):
+        return node.left.value
+    return None
 
 
 def _not_none_guard(st, var):
@@ -235,9 +275,11 @@ def _not_none_guard(st, var):
 
 
 def _get(fn):
+    """-> (order of the sources, slot prefix read)"""
     body = _strip_doc(fn.body)
     inst = fn.args.args[1].arg
     order = []
+    slot = None
     i = 0
     # leading `if instance is None: return self` (class-level access returns the descriptor) is not a source
     if body and isinstance(body[0], ast.If) and isinstance(body[0].test, ast.Compare) \
@@ -252,7 +294,9 @@ def _get(fn):
                 order.append("default")
                 if i != len(body) - 1:
                     raise Gap("__get__: statements after `return self.default`")
-                return order
+                if "explicit" in order and slot is None:
+                    raise Gap("__get__: slot of the explicit value not recognised")
+                return order, slot or "_"
             raise Gap(f"__get__: `{_src(st)}`")
         if isinstance(st, ast.Assign) and len(st.targets) == 1 and isinstance(st.targets[0], ast.Name) \
                 and isinstance(st.value, ast.Call) and i + 1 < len(body):
@@ -264,11 +308,13 @@ def _get(fn):
                           f"`{_src(guard).splitlines()[0]}` (falsy values would not be honoured)")
             ret = _single_return(guard.body, "__get__")
             if isinstance(call.func, ast.Name) and call.func.id == "getattr" and len(call.args) == 3 \
-                    and isinstance(call.args[0], ast.Name) and call.args[0].id == inst and _slot_expr(call.args[1]) \
+                    and isinstance(call.args[0], ast.Name) and call.args[0].id == inst \
+                    and _slot_expr(call.args[1]) is not None \
                     and isinstance(call.args[2], ast.Constant) and call.args[2].value is None:
                 if not (isinstance(ret, ast.Name) and ret.id == var):
                     raise Gap(f"__get__: explicit value returned as `{_src(ret)}`")
                 order.append("explicit")
+                slot = _slot_expr(call.args[1])
             elif isinstance(call.func, ast.Attribute) and call.func.attr == "getenv" \
                     and isinstance(call.func.value, ast.Name) and call.func.value.id == "os" and len(call.args) in (1, 2) \
                     and _is_self_attr(call.args[0], "env_var") \
@@ -312,12 +358,21 @@ def _env_var(fn):
 
 def _update(fn):
     """for n, v in d.items(): cv = type(cls).__dict__.get(n, None); if isinstance(cv, ConfigValue): setattr(cls, n, v)
-    else: <raise X(...) | X(...)>"""
+    else: <raise X(...) | X(...)>  [return cls.to_dict()]   -> (raises, error class, returns to_dict())"""
     body = _strip_doc(fn.body)
     loops = [s for s in body if isinstance(s, ast.For)]
     if len(loops) != 1:
         raise Gap("update: expected one for loop")
     loop = loops[0]
+    cls = fn.args.args[0].arg
+    rest = [s for s in body if s is not loop]
+    returns = False
+    if rest:
+        r = rest[0]
+        if not (len(rest) == 1 and body[-1] is r and isinstance(r, ast.Return) and isinstance(r.value, ast.Call)
+                and not r.value.args and not r.value.keywords and _is_attr_of(r.value.func, cls, "to_dict")):
+            raise Gap(f"update: unknown statement `{_src(r)}` (expected `return {cls}.to_dict()`)")
+        returns = True
     if not (isinstance(loop.target, ast.Tuple) and len(loop.target.elts) == 2 and not loop.orelse):
         raise Gap("update: loop target")
     n, v = (e.id for e in loop.target.elts)
@@ -330,7 +385,7 @@ def _update(fn):
         raise Gap(f"update: test `{_src(t)}`")
     if not (len(cond.body) == 1 and isinstance(cond.body[0], ast.Expr) and isinstance(cond.body[0].value, ast.Call)
             and isinstance(cond.body[0].value.func, ast.Name) and cond.body[0].value.func.id == "setattr"
-            and [getattr(a, "id", None) for a in cond.body[0].value.args] == [fn.args.args[0].arg, n, v]):
+            and [getattr(a, "id", None) for a in cond.body[0].value.args] == [cls, n, v]):
         raise Gap(f"update: known-name branch `{'; '.join(_src(b) for b in cond.body)}`")
     if len(cond.orelse) != 1:
         raise Gap(f"update: unknown-name branch `{'; '.join(_src(b) for b in cond.orelse)}`")
@@ -339,13 +394,126 @@ def _update(fn):
         name = _exc_name(o)
         if name is None:
             raise Gap(f"update: `{_src(o)}`")
-        return True, name
+        return True, name, returns
     if isinstance(o, ast.Expr) and isinstance(o.value, ast.Call) and isinstance(o.value.func, ast.Name):
-        return False, o.value.func.id       # exception object constructed, never raised
+        return False, o.value.func.id, returns       # exception object constructed, never raised
     raise Gap(f"update: unknown-name branch `{_src(o)}`")
 
 
+def _to_dict(fn):
+    """return {n: v for n, v in type(cls).__dict__.items() if isinstance(v, ConfigValue)}  -> what is stored under a name"""
+    body = _strip_doc(fn.body)
+    cls = fn.args.args[0].arg
+    r = _single_return(body, "to_dict")
+    ok = isinstance(r, ast.DictComp) and len(r.generators) == 1 and isinstance(r.generators[0].target, ast.Tuple) \
+        and len(r.generators[0].target.elts) == 2 and all(isinstance(e, ast.Name) for e in r.generators[0].target.elts)
+    if not ok:
+        raise Gap(f"to_dict: `{_src(r)}`")
+    g = r.generators[0]
+    n, v = (e.id for e in g.target.elts)
+    it = g.iter
+    ok = isinstance(it, ast.Call) and not it.args and isinstance(it.func, ast.Attribute) and it.func.attr == "items" \
+        and isinstance(it.func.value, ast.Attribute) and it.func.value.attr == "__dict__" \
+        and isinstance(it.func.value.value, ast.Call) and _is_name(it.func.value.value.func, "type") \
+        and len(it.func.value.value.args) == 1 and _is_name(it.func.value.value.args[0], cls)
+    if not ok:
+        raise Gap(f"to_dict: iterates over `{_src(it)}` (expected `type({cls}).__dict__.items()`)")
+    if not (len(g.ifs) == 1 and isinstance(g.ifs[0], ast.Call) and _is_name(g.ifs[0].func, "isinstance")
+            and len(g.ifs[0].args) == 2 and _is_name(g.ifs[0].args[0], v) and _is_name(g.ifs[0].args[1], "ConfigValue")):
+        raise Gap(f"to_dict: filter `{'; '.join(_src(i) for i in g.ifs)}` (expected `isinstance({v}, ConfigValue)`)")
+    if not _is_name(r.key, n):
+        raise Gap(f"to_dict: key `{_src(r.key)}`")
+    if _is_name(r.value, v):
+        return "descriptor"
+    raise Gap(f"to_dict: value `{_src(r.value)}`")
+
+
+INIT_ATTRS = {"default": "default", "type": "type", "parser": "parser", "_env_var": "envVar", "_env_var_prefix": "envPrefix",
+              "owner": "owner", "name": "name"}
+
+
+def _self_store(st, what):
+    """`self.<attr> = <expr>` -> (attr, expr)"""
+    if isinstance(st, ast.Assign) and len(st.targets) == 1 and isinstance(st.targets[0], ast.Attribute) \
+            and _is_name(st.targets[0].value, "self") and st.targets[0].attr in INIT_ATTRS:
+        return INIT_ATTRS[st.targets[0].attr], st.value
+    raise Gap(f"{what}: unknown statement `{_src(st)}`")
+
+
+def _init(fn):
+    """self.default = default; self.type = type(default); self.parser = parser; self._env_var = env_var;
+    self._env_var_prefix = env_var_prefix   -> [(attribute, source)]"""
+    a = fn.args
+    params = [x.arg for x in a.args[1:]] + [x.arg for x in a.kwonlyargs]
+    if a.args[0].arg != "self" or sorted(params) != sorted(["default", "env_var", "env_var_prefix", "parser"]) or a.vararg \
+            or a.kwarg:
+        raise Gap(f"__init__: parameters {params}")
+    src_of = {"default": "argDefault", "parser": "argParser", "env_var": "argEnvVar", "env_var_prefix": "argEnvPrefix"}
+    typed = {"argDefault": "default", "argParser": "parser", "argEnvVar": "envVar", "argEnvPrefix": "envPrefix"}
+    stores = []
+    for st in _strip_doc(fn.body):
+        attr, e = _self_store(st, "__init__")
+        if isinstance(e, ast.Name) and e.id in src_of:
+            src = src_of[e.id]
+            if typed[src] != attr:
+                raise Gap(f"__init__: `{_src(st)}` stores the parameter {e.id} as {attr}")
+        elif isinstance(e, ast.Call) and _is_name(e.func, "type") and len(e.args) == 1 and not e.keywords \
+                and _is_name(e.args[0], "default") and attr == "type":
+            src = "typeOfDefault"
+        else:
+            raise Gap(f"__init__: `{_src(st)}`")
+        if attr in [x for x, _ in stores]:
+            raise Gap(f"__init__: {attr} assigned twice")
+        stores.append((attr, src))
+    return stores
+
+
+def _set_name(fn):
+    """self.owner = owner; self.name = name; if not self._env_var_prefix: self._env_var_prefix = <chain>(self.owner.__module__)
+    -> ([(attribute, source)], fallback present, normalisation chain)"""
+    params = [x.arg for x in fn.args.args]
+    if params != ["self", "owner", "name"]:
+        raise Gap(f"__set_name__: parameters {params}")
+    stores, fallback, norm = [], False, []
+    for st in _strip_doc(fn.body):
+        if isinstance(st, ast.If):
+            t = st.test
+            if not (isinstance(t, ast.UnaryOp) and isinstance(t.op, ast.Not) and _is_self_attr(t.operand, "_env_var_prefix")
+                    and not st.orelse and len(st.body) == 1) or fallback:
+                raise Gap(f"__set_name__: `{_src(st).splitlines()[0]}`")
+            attr, e = _self_store(st.body[0], "__set_name__")
+            if attr != "envPrefix":
+                raise Gap(f"__set_name__: `{_src(st.body[0])}`")
+            ops = []
+            while isinstance(e, ast.Call) and isinstance(e.func, ast.Attribute):
+                m = e.func.attr
+                if m in STR_OPS and not e.args and not e.keywords:
+                    ops.append(("op", m))
+                elif m == "replace" and len(e.args) == 2 and not e.keywords \
+                        and all(isinstance(x, ast.Constant) and isinstance(x.value, str) and len(x.value) == 1 for x in e.args):
+                    ops.append(("replace", e.args[0].value, e.args[1].value))
+                else:
+                    raise Gap(f"__set_name__: prefix fallback `{_src(st.body[0])}`")
+                e = e.func.value
+            if not (isinstance(e, ast.Attribute) and e.attr == "__module__" and _is_self_attr(e.value, "owner")):
+                raise Gap(f"__set_name__: prefix fallback is not derived from self.owner.__module__: `{_src(st.body[0])}`")
+            fallback, norm = True, list(reversed(ops))
+            continue
+        attr, e = _self_store(st, "__set_name__")
+        if attr == "owner" and _is_name(e, "owner"):
+            stores.append(("owner", "argOwner"))
+        elif attr == "name" and _is_name(e, "name"):
+            stores.append(("name", "argName"))
+        else:
+            raise Gap(f"__set_name__: `{_src(st)}`")
+    if fallback and ("owner", "argOwner") not in stores:
+        raise Gap("__set_name__: the prefix fallback reads self.owner, which is not assigned")
+    return stores, fallback, norm
+
+
 def _set_delete(ms):
+    """-> (slot prefix written by __set__, slot prefix removed by __delete__)"""
+    out = []
     for name, fname, nargs in (("__set__", "setattr", 3), ("__delete__", "delattr", 2)):
         fn = ms.get(name)
         if fn is None:
@@ -354,11 +522,13 @@ def _set_delete(ms):
         ok = len(body) == 1 and isinstance(body[0], ast.Expr) and isinstance(body[0].value, ast.Call) \
             and isinstance(body[0].value.func, ast.Name) and body[0].value.func.id == fname \
             and len(body[0].value.args) == nargs and isinstance(body[0].value.args[0], ast.Name) \
-            and body[0].value.args[0].id == fn.args.args[1].arg and _slot_expr(body[0].value.args[1])
+            and body[0].value.args[0].id == fn.args.args[1].arg and _slot_expr(body[0].value.args[1]) is not None
         if ok and nargs == 3:
             ok = isinstance(body[0].value.args[2], ast.Name) and body[0].value.args[2].id == fn.args.args[2].arg
         if not ok:
             raise Gap(f"{name}: expected `{fname}(instance, \"_\" + self.name…)`, got `{'; '.join(_src(b) for b in body)}`")
+        out.append(_slot_expr(body[0].value.args[1]))
+    return out
 
 
 def _is_name(node, ident):
@@ -511,14 +681,17 @@ def extract(path):
     data = {}
     # ---- parse -------------------------------------------------------------------------------------
     body = _strip_doc(ms["parse"].body)
-    order = []
+    tests = []
     for st in body[:-1]:
         if not (isinstance(st, ast.If) and not st.orelse):
             raise Gap(f"parse: unknown statement `{_src(st).splitlines()[0]}`")
-        b = _branch_of_test(st.test)
-        if b in order:
+        b, kind = _branch_of_test(st.test)
+        if b in ("path", "str", "int"):
+            tests.append((b, kind, _plain_body(st.body, b)))
+            continue
+        if b in [t[0] for t in tests]:
             raise Gap(f"parse: branch {b} twice")
-        order.append(b)
+        tests.append((b, kind, "std"))
         if b == "custom":
             r = _single_return(st.body, "custom branch")
             if not (isinstance(r, ast.Call) and _is_self_attr(r.func, "parser") and len(r.args) == 1
@@ -526,13 +699,6 @@ def extract(path):
                 raise Gap(f"custom branch: `{_src(r)}`")
         elif b == "bool":
             data["boolTests"], data["boolElse"] = _bool_branch(st.body)
-        elif b in ("path", "str"):
-            r = _single_return(st.body, b + " branch")
-            okp = isinstance(r, ast.Call) and isinstance(r.func, ast.Name) and r.func.id == "Path" and len(r.args) == 1 \
-                and isinstance(r.args[0], ast.Name) and r.args[0].id == "s"
-            oks = isinstance(r, ast.Name) and r.id == "s"
-            if not (okp if b == "path" else oks):
-                raise Gap(f"{b} branch: `{_src(r)}`")
         elif b == "enum":
             data["enumLookups"] = _enum_branch(st.body)
         elif b == "mapping":
@@ -543,7 +709,8 @@ def extract(path):
     a = _type_call(_single_return([last], "parse fallback"), "parse fallback")
     if not (isinstance(a, ast.Name) and a.id == "s"):
         raise Gap(f"parse fallback: `{_src(last)}`")
-    data["parseOrder"] = order
+    data["parseTests"] = tests
+    data["parseOrder"] = [t[0] for t in tests]
     # branches that are absent get neutral data so that the file still builds (the theorems about them fail)
     data.setdefault("boolTests", [])
     data.setdefault("boolElse", "ValueError")
@@ -552,13 +719,20 @@ def extract(path):
                     ("listItemNorm", [])):
         data.setdefault(k, dflt)
     # ---- the rest ----------------------------------------------------------------------------------
-    data["getOrder"] = _get(ms["__get__"])
+    data["getOrder"], data["getSlot"] = _get(ms["__get__"])
     data["envSep"], data["envNameNorm"] = _env_var(ms["env_var"])
-    _set_delete(ms)
+    data["setSlot"], data["delSlot"] = _set_delete(ms)
+    for m in ("__init__", "__set_name__"):
+        if m not in ms:
+            raise Gap(f"ConfigValue.{m} not found")
+    data["initStores"] = _init(ms["__init__"])
+    data["setNameStores"], data["prefixFallback"], data["modulePrefixNorm"] = _set_name(ms["__set_name__"])
     mm = _methods(classes["ConfigMeta"])
-    if "update" not in mm:
-        raise Gap("ConfigMeta.update not found")
-    data["updateRaises"], data["updateErr"] = _update(mm["update"])
+    for m in ("update", "to_dict"):
+        if m not in mm:
+            raise Gap(f"ConfigMeta.{m} not found")
+    data["toDictYield"] = _to_dict(mm["to_dict"])
+    data["updateRaises"], data["updateErr"], data["updateReturnsToDict"] = _update(mm["update"])
     fns = {n.name: n for n in tree.body if isinstance(n, ast.FunctionDef)}
     if "config" not in fns:
         raise Gap("decorator `config` not found")
@@ -572,6 +746,15 @@ ERR = {"ValueError": ".valueError", "KeyError": ".keyError", "TypeError": ".type
 
 def _ops(ops):
     return "[" + ", ".join("." + o for o in ops) + "]"
+
+
+def _ops2(ops):
+    """chains that may contain `.replace("a", "b")`"""
+    return "[" + ", ".join("." + o[1] if o[0] == "op" else f".replace {_chr(o[1])} {_chr(o[2])}" for o in ops) + "]"
+
+
+def _stores(st):
+    return "[" + ", ".join(f"(.{a}, .{b})" for a, b in st) + "]"
 
 
 def _chr(c):
@@ -593,8 +776,9 @@ def lean_text(data, rel="pyroll/core/config.py"):
         "namespace Gen.C20",
         "open Config",
         "",
-        "/-- the `if` branches of `ConfigValue.parse`, in source order (what is left falls through to `self.type(s)`) -/",
-        "def parseOrder : List Branch := [" + ", ".join("." + b for b in data["parseOrder"]) + "]",
+        "/-- the `if` branches of `ConfigValue.parse`, in source order: dispatch class, how `self.type` is tested against it, "
+        "what the branch returns (what is left falls through to `self.type(s)`) -/",
+        "def parseTests : List Test := [" + ", ".join(f"⟨.{b}, .{k}, .{r}⟩" for b, k, r in data["parseTests"]) + "]",
         "",
         "/-- bool branch: (string methods applied to the text, literal compared with, value returned), in source order -/",
         f"def boolTests : List (List StrOp × Text × Bool) := [{bt}]",
@@ -617,13 +801,33 @@ def lean_text(data, rel="pyroll/core/config.py"):
         "/-- `ConfigValue.__get__`: the sources in the order they are consulted (each one guarded by `is not None`) -/",
         "def getOrder : List Source := [" + ", ".join("." + s for s in data["getOrder"]) + "]",
         "",
+        "/-- the attribute holding the explicit value is `<slot> + self.name` on the config class: as read by `__get__`, "
+        "written by `__set__`, removed by `__delete__` -/",
+        f"def getSlot : Text := {_txt(data['getSlot'])}",
+        f"def setSlot : Text := {_txt(data['setSlot'])}",
+        f"def delSlot : Text := {_txt(data['delSlot'])}",
+        "",
+        "/-- `ConfigValue.__init__`: `self.<attribute> = <source>`, in source order -/",
+        f"def initStores : List (CVAttr × InitSrc) := {_stores(data['initStores'])}",
+        "",
+        "/-- `ConfigValue.__set_name__`: `self.<attribute> = <parameter>` … -/",
+        f"def setNameStores : List (CVAttr × InitSrc) := {_stores(data['setNameStores'])}",
+        "/-- … and `if not self._env_var_prefix: self._env_var_prefix = <modulePrefixNorm>(self.owner.__module__)` -/",
+        f"def prefixFallback : Bool := {'true' if data['prefixFallback'] else 'false'}",
+        f"def modulePrefixNorm : List StrOp := {_ops2(data['modulePrefixNorm'])}",
+        "",
         "/-- `ConfigValue.env_var`: `f\"{prefix}<envSep>{envNameNorm(name)}\"` unless an override is given -/",
         f"def envSep : Text := {_txt(data['envSep'])}",
         f"def envNameNorm : List StrOp := {_ops(data['envNameNorm'])}",
         "",
-        "/-- `ConfigMeta.update`: does the unknown-name branch contain a `raise`, and of what -/",
+        "/-- `ConfigMeta.to_dict`: every `ConfigValue` of the metaclass' `__dict__` under its name, as … -/",
+        f"def toDictYield : DictYield := .{data['toDictYield']}",
+        "",
+        "/-- `ConfigMeta.update`: does the unknown-name branch contain a `raise`, and of what; does it end with "
+        "`return cls.to_dict()` -/",
         f"def updateRaises : Bool := {'true' if data['updateRaises'] else 'false'}",
         f"def updateErr : Err := {ERR.get(data['updateErr'], '.other')}",
+        f"def updateReturnsToDict : Bool := {'true' if data['updateReturnsToDict'] else 'false'}",
         "",
         "/-- `config` decorator: an attribute `n` of the decorated class becomes a `ConfigValue` iff all of these hold -/",
         "def nameTests : List NameTest := [" + ", ".join(
